@@ -242,7 +242,7 @@ def main():
             for name, props in sorted(engines.items())
         ],
         "checks": checks,
-        "notes": "All checks are bounded-exhaustive explorations of the real code (model checking family); see DESIGN.md. Exit 2 = machinery failure (no verdict).",
+        "notes": "All checks are bounded-exhaustive explorations of the real code (model checking family); see DESIGN.md (section 8 = as built). Exit 2 = machinery failure (no verdict). Five genuine defects were repaired by fix: commits in /repo (82bc7df, d1c40af, 04d0781, 064d609, 3d944fa; see known_findings.txt).",
         "not_applicable": [
             {"property_id": pid, "reason": NOT_YET} for pid in ALL if pid not in CHECKS
         ],
